@@ -363,7 +363,7 @@ def c12_ensure(R):
     # _add records a concretely-false constraint
     add = ms["_add"]
     ok = any(
-        a == "_unsat" and isinstance(val, ast.Constant) and val.value is True for a, kind, node, val in util.attr_writes(add, "self")
+        a == "_unsat" and isinstance(val, ast.Constant) and val.value is True for a, kind, node, val in util.attr_writes_deep(add, ms, "self")
     )
     R.check(
         ok,
